@@ -79,11 +79,22 @@ def eval_budget(data, cfg):
     """Upper bound on element evaluations for an input that is 'proportional to the work the document asks for':
     10*(n_el*(1+L)+16)^2 where L bounds the loop iterations the document may execute."""
     n_el = n_elements(data) + 1
-    loops = len(re.findall(rb"<(loop|for)\b", data))
     ll = (cfg or {}).get("loop", 1000)
+    # iterations each loop may run: the literal count / number of data items where the document spells it out, else the loop limit
+    iters = []
+    for m in re.finditer(rb"<(loop|for)\b([^>]*)>", data):
+        a = m.group(2)
+        c = re.search(rb'\bcount="(\d{1,6})"', a)
+        dd = re.search(rb'\bdata="([^"{$#]*)"', a)
+        if m.group(1) == b"loop" and c:
+            iters.append(min(int(c.group(1)), ll) + 1)
+        elif m.group(1) == b"for" and dd:
+            iters.append(len(re.split(rb"[,\s]+", dd.group(1).strip())) + 1)
+        else:
+            iters.append(ll + 1)
     amp = 1
-    if loops:
-        amp = min((ll + 1) ** min(loops, 3), 10 ** 6)
+    for n in sorted(iters, reverse=True)[:3]:
+        amp = min(amp * n, 10 ** 6)
     reuse = len(re.findall(rb"<(reuse|use)\b", data))
     if reuse:
         amp *= min(2 ** min(reuse, 10), 1024)
@@ -116,6 +127,7 @@ def judge(ctx, case, r, via="worker"):
             w2.close()
         if r2.status != "stall":
             acc.inconc("stall-not-reproduced")
+            acc.notes.append("stall not reproduced: family %s d=%s second=%s" % (case.get("fam"), case.get("d"), r2.status))
             return None
         fam = case.get("fam") or "mutant"
         sig = "hang:no-hook-progress@%s" % fam
@@ -124,7 +136,8 @@ def judge(ctx, case, r, via="worker"):
                       "scanner step), twice: it is spinning" % r.get("cpu_ms_without_progress"))
         return sig
     if st == "blowup":
-        sig = "blowup@" + ("nested-retries" if case.get("nested") else "flat")
+        fam = case.get("fam") or ""
+        sig = "blowup@" + ("recursion-branching" if fam.startswith("cycle.") else "nested-retries" if case.get("nested") else "flat")
         acc.violation("blow-up", sig, case, observed=dict(elem_evals=r.elem_evals, expr_evals=r.expr_evals, budget=r.max),
                       expected="<= budget", what="element evaluations exceeded 10*(n_el*(1+L)+16)^2 before completion")
         return sig
@@ -377,6 +390,32 @@ def sweep_families(tier):
     }
     for fam, body in cyc.items():
         yield fam, 0, doc(body), False
+    # branching self-recursion (2^depth-limit instantiations unless the recursion itself is detected)
+    for fam, body in {
+        "cycle.reuse-self-double": '<g id="a"><rect wh="1"/><reuse href="#a"/><reuse href="#a"/></g>',
+        "cycle.reuse-self-double-specs": '<specs><g id="a"><reuse href="#a"/><reuse href="#a"/></g></specs><reuse href="#a"/>',
+        "cycle.reuse-pair-double": '<specs><g id="a"><reuse href="#b"/><reuse href="#b"/></g><g id="b"><reuse href="#a"/><reuse href="#a"/></g></specs><reuse href="#a"/>',
+        "cycle.reuse-self-in-loop": '<specs><g id="a"><loop count="3"><reuse href="#a"/></loop></g></specs><reuse href="#a"/>',
+    }.items():
+        yield fam, 0, doc(body), True
+    # a limit lowered in mid-document by a <config> element that itself sits deeper than (or at) the new limit, followed by
+    # content that can only be stopped by that limit
+    runaway = {
+        "reuse-self": '<g id="a"><rect wh="1"/><reuse href="#a"/></g>',
+        "reuse-pair": '<g id="a"><reuse href="#b"/></g><g id="b"><reuse href="#a"/></g>',
+        "reuse-self-specs": '<specs><g id="a"><rect wh="1"/><reuse href="#a"/></g></specs><reuse href="#a"/>',
+        "nest-20": nest("<g>", "</g>", 20),
+        "while-true": '<loop while="1"><rect wh="1"/></loop>',
+        "var-grow": '<var a="xx"/><loop count="40"><var a="$a$a"/></loop><text text="$a"/>',
+    }
+    for k in (0, 1, 2, 3, 5):
+        for N in (0, 1, 2, 3, 4):
+            for name, body in runaway.items():
+                lim = {"while-true": "loop-limit", "var-grow": "var-limit"}.get(name, "depth-limit")
+                yield "limit-lowered.%s" % name, 10 * k + N, "<svg>" + "<g>" * k + '<config %s="%d"/>' % (lim, N) + body + "</g>" * k + "</svg>", True
+                if k:
+                    # ... or content that follows the group holding the <config>
+                    yield "limit-lowered-sibling.%s" % name, 10 * k + N, "<svg>" + "<g>" * k + '<config %s="%d"/>' % (lim, N) + "</g>" * k + body + "</svg>", True
     # XML nesting of every container kind
     kinds = {
         "g": ("<g>", "</g>"), "svg": ("<svg>", "</svg>"), "defs": ("<defs>", "</defs>"),
@@ -385,7 +424,7 @@ def sweep_families(tier):
         "for": ('<for var="i" data="1">', "</for>"), "specs": ("<specs>", "</specs>"),
         "symbol": ("<symbol>", "</symbol>"), "linearGradient": ("<linearGradient>", "</linearGradient>"),
         "clipPath": ("<clipPath>", "</clipPath>"), "g-transform": ('<g transform="translate(1)">', "</g>"),
-        "g-attrs": ('<g k="{{$k+1}}">', "</g>"), "unknown": ("<zzz>", "</zzz>"),
+        "g-attrs": ('<g k="{{$k+1}}">', "</g>"), "g-attrs-double": ('<g a="x$a$a">', "</g>"), "unknown": ("<zzz>", "</zzz>"),
         "rect-with-content": ('<rect wh="1">', "</rect>"),
     }
     for k, (o, c) in kinds.items():
